@@ -136,13 +136,14 @@ static void ref_expand(const char *s, sb_t *o, int depth)
             if (!in_single) {
                 char e = p[1], r;
                 switch (e) { case 'n': r = '\n'; break; case 'r': r = '\r'; break; case 't': r = '\t'; break; case 'b': r = '\b'; break; case 'f': r = '\f'; break;
-                             case 'a': r = '\a'; break; case 'v': r = '\v'; break; case 'e': r = '\033'; break; default: r = e; if (isupper((unsigned char)e)) dont_care = 1; break; }
+                             case 'a': r = '\a'; break; case 'v': r = '\v'; break; case 'e': r = '\033'; break;
+                             default: r = e; if (isalnum((unsigned char)e)) dont_care = 1; break; }      /* a letter or digit that names no control character: not specified (a backslash in front of punctuation quotes it) */
                 sb_ch(o, r); p++;
             } else if (p[1] == '\'') { sb_ch(o, '\''); p++; }
             else { sb_ch(o, c); sb_ch(o, p[1]); p++; }
         } else if (c == '~') {
             const char *h = getenv("HOME");
-            if (!in_single && !in_double && h && *h) sb_put(o, h, strlen(h)); else sb_ch(o, c);
+            if (!in_single && !in_double && h && *h) sb_put(o, h, strlen(h)); else { if (!in_single && !in_double) dont_care = 1; sb_ch(o, c); }      /* (no home directory to put there: not specified) */
         } else if (c == '$') {
             if (in_single) { sb_ch(o, c); continue; }
             {
